@@ -1,6 +1,8 @@
 /* C17 driver: logical threads run wait/notify/store scripts against the REAL futex.c
  * (compiled through sched_shim.h).  argv[1]: scripts, threads separated by '|', ops by ';':
  *   W<bits>:addr:expected:timeout   wait32/wait64 (timeout < 0 = infinite)
+ *   X<bits>:addr:expected:timeout:k the same wait, but the k-th allocation it makes (calloc of the wait record, the map, a map node) fails,
+ *                                   k = 9: the initialisation of its condition variable fails; the trap the runtime raises ends the call (res -1)
  *   N:addr:count                    notify
  *   S:addr:value                    atomic store of an i32
  *   D:ms                            (real threads only) sleep
@@ -10,9 +12,23 @@
 #include <stdlib.h>
 #include <string.h>
 #include <time.h>
+#include <setjmp.h>
 #include "w2c2_base.h"
 void sh_run(void* (*mainfn)(void*), void* arg);
-void trap(Trap t) { printf("{\"ev\":\"trap\",\"code\":%d}\n", (int)t); fflush(stdout); _Exit(3); }
+/* host memory exhaustion inside one wait call (linked with --wrap=calloc): the bucket array of the map (calloc(n > 1, pointer size)) is not
+ * a target - its result is not examined by map.c at all */
+static __thread int fail_alloc_at, trap_armed;
+static __thread jmp_buf trap_jmp;
+int sh_fail_cond_init(void) { if (fail_alloc_at == 9) { fail_alloc_at = 0; return 1; } return 0; }
+void* __real_calloc(size_t n, size_t size);
+void* __wrap_calloc(size_t n, size_t size) {
+    if (fail_alloc_at > 0 && fail_alloc_at < 9 && !(n > 1 && size == sizeof(void*)) && --fail_alloc_at == 0) return NULL;
+    return __real_calloc(n, size);
+}
+void trap(Trap t) {
+    if (trap_armed && t == trapAllocationFailed) longjmp(trap_jmp, 1);
+    printf("{\"ev\":\"trap\",\"code\":%d}\n", (int)t); fflush(stdout); _Exit(3);
+}
 static wasmMemory* mem;
 static char* scripts[64]; static int nscripts;
 
@@ -25,6 +41,15 @@ static void* worker(void* arg) {
             sh_api("call", bits == 64 ? "wait64" : "wait32", a, b, c, 0);
             r = wasmMemoryAtomicWait(mem, (U32)a, (U64)b, (I64)c, bits == 64);
             sh_api("ret", bits == 64 ? "wait64" : "wait32", a, b, c, r);
+        } else if (op[0] == 'X') {
+            int bits = 32; long long k = 1;
+            sscanf(op, "X%d:%lld:%lld:%lld:%lld", &bits, &a, &b, &c, &k);
+            sh_api("call", bits == 64 ? "wait64" : "wait32", a, b, c, 0);
+            fail_alloc_at = (int)k; trap_armed = 1;
+            if (setjmp(trap_jmp) == 0) r = wasmMemoryAtomicWait(mem, (U32)a, (U64)b, (I64)c, bits == 64);
+            else r = (U32)-1;
+            fail_alloc_at = 0; trap_armed = 0;
+            sh_api("ret", bits == 64 ? "wait64" : "wait32", a, b, c, r == (U32)-1 ? -1 : (long long)r);
         } else if (op[0] == 'N') {
             sscanf(op, "N:%lld:%lld", &a, &b);
             sh_api("call", "notify", a, b, 0, 0);
